@@ -21,12 +21,13 @@ variable (sha : Bytes → Bytes) (ph : Bytes → Option Bytes)
 @[simp] theorem erase_isPart (d : RawDesc) (pt : Int) :
     (erase d).isPartitionOfType pt = d.isPartitionOfType pt := rfl
 
-theorem Sel.bad_eq (s : Sel) : s.bad = s.errOf := by
+theorem Sel.bad_erase (s : Sel) (d : RawDesc) : s.bad (erase d) = s.errOn ph d := by
   cases s with
   | id i => cases i <;> rfl
   | linkedID i => cases i <;> rfl
   | groupID i => cases i <;> rfl
   | linkedGroupID i => cases i <;> rfl
+  | pred f => simp only [Sel.bad, Sel.errOn, Sel.eval]; cases f (erase d) <;> rfl
   | _ => rfl
 
 theorem Sel.sat_erase (s : Sel) (d : RawDesc) : s.sat ph (erase d) = s.holds ph d := by
@@ -634,16 +635,35 @@ theorem deleteFinish_hdr (s : Img) (h1 : Hdr) (rds1 : List RawDesc) (compact : B
 /-- what `DeleteObjects` answers -/
 theorem deleteObjectsPlan_res (s : Img) (sel : Sel) (zero compact : Bool) (topt : TOpt) (now : Int) :
     (deleteObjectsPlan ph s sel zero compact topt now).2.2 =
-      match sel.errOf with
-      | some e => if s.rds.any (·.used) then .err e else .err .objectNotFound
+      match sel.firstErr ph s.rds with
+      | some e => .err e
       | none => if s.rds.any (hit ph sel) then .ok else .err .objectNotFound := by
   unfold deleteObjectsPlan
-  rcases Sel.noErr_or_errOf sel with hs | ⟨e, he⟩
-  · rw [deleteLoop_closed ph sel hs, Sel.errOf_none_of_noErr sel hs]
+  cases hfe : sel.firstErr ph s.rds with
+  | none =>
+    rw [deleteLoop_closed ph sel zero _ _ _ _ _ hfe]
     simp only [List.nil_append, Bool.false_or]
     cases hany : s.rds.any (hit ph sel) <;> simp
-  · rw [deleteLoop_err ph sel e he, he]
-    cases hany : s.rds.any (·.used) <;> simp
+  | some e =>
+    rw [deleteLoop_err ph sel e zero _ _ _ _ _ hfe]
+
+/-- the selector's first error on the objects of the abstract image is its first error on the
+    in-use descriptors -/
+theorem firstErr_objs (s : Img) (sel : Sel) :
+    (abs s).objs.findSome? (fun o => sel.bad o.d) = sel.firstErr ph s.rds := by
+  rw [abs_objs]
+  unfold Sel.firstErr
+  induction s.rds with
+  | nil => simp [live]
+  | cons d ds ih =>
+    cases hu : d.used with
+    | false => simpa [live, hu] using ih
+    | true =>
+      simp only [live, List.filter_cons, hu, ↓reduceIte, List.map_cons, List.findSome?_cons,
+        Sel.bad_erase ph]
+      cases sel.errOn ph d with
+      | some e => rfl
+      | none => simpa [live] using ih
 
 theorem any_used_objs (s : Img) : s.rds.any (·.used) = !(abs s).objs.isEmpty := by
   rw [abs_objs]
@@ -697,23 +717,12 @@ theorem refine_del (s : Img) (W : WF s) (P : Placed s) (R : Ranges s) (sel : Sel
       abs (step sha ph s (.del sel zero compact topt) now).1 = abs s :=
     fun e he => refine_rejected sha ph s W P R _ now (by rw [he]; simp) hio
   unfold AImg.del
-  rw [Sel.bad_eq, abs_time]
-  cases he : sel.errOf with
+  rw [firstErr_objs ph, abs_time]
+  cases he : sel.firstErr ph s.rds with
   | some e =>
     rw [he] at hr
     dsimp only at hr ⊢
-    rw [any_used_objs] at hr
-    cases ho : (abs s).objs with
-    | nil =>
-      rw [ho] at hr
-      simp only [List.isEmpty_nil, Bool.not_true, Bool.false_eq_true, ↓reduceIte] at hr
-      simp only [↓reduceIte]
-      exact ⟨hr, rej _ hr⟩
-    | cons o os =>
-      rw [ho] at hr
-      simp only [List.isEmpty_cons, Bool.not_false, ↓reduceIte] at hr
-      simp only [reduceCtorEq, ↓reduceIte]
-      exact ⟨hr, rej _ hr⟩
+    exact ⟨hr, rej _ hr⟩
   | none =>
     rw [he] at hr
     dsimp only at hr ⊢
